@@ -43,6 +43,9 @@ META = {
     "C06": {"technique": "property-based fault injection: cancellation triggers on generated life-cycle instants + time bound / signal / genuineness oracle",
             "level_text": "Generated workflows are cancelled at generated instants of each step's life; the oracle uses the statement's own time bound, the plugin log (cancel signal or closed connection for every never-ending execution, all executions ended) and C05's accounting.",
             "level_note": TB + "; the time bound is the one the property states (it is the only clock in the oracle)"},
+    "C13": {"technique": "property-based testing of the loop step: generated item lists / parallelism / per-item scripts, concurrency high-water mark + per-item reference",
+            "level_text": "Generated-input search over item lists, parallelism values, per-item outcomes and durations, nested loops and cancellation instants; concurrency is measured inside the scripted plugin, results are compared with a per-item reference evaluation.",
+            "level_note": TB + "; forced overlap uses a gate with a 1.5 s timeout, so a serialising implementation is reported through the high-water mark, not a hang"},
 }
 
 NOT_APPLICABLE = []
